@@ -571,6 +571,13 @@ def toDef (i : SDef) : BarterModel.Index.Def :=
     nameExchange := code i.nameExchange.name, base := i.base.erase, quote := i.quote.erase,
     quoteAsset := i.quoteAsset, kind := kindMap Asset.erase i.kind, spec := specMap Asset.erase i.spec }
 
+/-- An instrument with its two names replaced by their codes (keys untouched): the shape on which
+the builder of `Model/Index.lean` maps keys. -/
+def eraseNames {E A : Type} (i : Instrument E A) : BarterModel.Index.Instrument E A :=
+  { exchange := i.exchange, nameInternal := code i.nameInternal.name,
+    nameExchange := code i.nameExchange.name, base := i.base, quote := i.quote,
+    quoteAsset := i.quoteAsset, kind := i.kind, spec := i.spec }
+
 /-- All names of a definition fit the code. -/
 def SDef.Short (i : SDef) : Prop :=
   i.nameInternal.name.length ≤ L ∧ i.nameExchange.name.length ≤ L ∧
